@@ -51,6 +51,7 @@ type World struct {
 	maxPaths      int
 	stepBudget    int
 	verbose       bool
+	maxViol       int
 	loadTime      time.Duration
 }
 
@@ -241,6 +242,9 @@ func (w *World) runHarness(name string, mode string, wallBudget time.Duration) *
 	res := &HarnessResult{Name: name, Mode: mode, Kinds: map[string]int{}, Unsupported: map[string]int{}, Panics: map[string]int{},
 		Funcs: map[string]bool{}, Intr: map[string]bool{}}
 	e := &explorer{w: w, fn: fn, mode: mode, res: res, maxViol: 3, nwork: w.workers}
+	if w.maxViol > 0 {
+		e.maxViol = w.maxViol
+	}
 	e.cond = sync.NewCond(&e.mu)
 	e.queue = []*task{{}}
 	e.deadline = time.Now().Add(wallBudget)
